@@ -10,8 +10,9 @@
                                      -> bufferHandshakeRecord: FragmentBuffer.Push(record) FIRST, for every
                                         content type; Push passes non-handshake records on and refuses
                                         handshake records once the buffer is at its limit => record dropped
-                                     -> RecordLayer.Unmarshal: on error an epoch-0 record is discarded (d2d55dd), a
-                                        protected one is answered with a fatal decode_error alert + error
+                                     -> RecordLayer.Unmarshal: on error a record of epoch 0 or of type
+                                        change_cipher_spec is discarded (82cb644), any other protected one is
+                                        answered with a fatal decode_error alert + error (Recv.dispatch CBad)
                                      -> handleRecordContent  (= Recv.dispatch) *)
 From DtlsV Require Import Lib.Bytes Rec.Window Rec.Recv.
 Open Scope N_scope.
@@ -24,7 +25,6 @@ Open Scope N_scope.
    refused (bufferHandshakeRecord: "defragment failed", record dropped) and every other record goes on to
    RecordLayer.Unmarshal / handleRecordContent as usual. *)
 Definition is_hs (c : content) : bool := match c with CHs _ _ => true | _ => false end.
-Definition is_bad (c : content) : bool := match c with CBad => true | _ => false end.
 
 Definition gated (full : bool) (s : rstate) (c : content) (x : rstate * list out) : rstate * list out :=
   if full && is_hs c then (s, []) else x.
@@ -35,10 +35,7 @@ Definition recv_fb (W : nat) (lease full : bool) (s : rstate) (w : wire) : rstat
     (if r_epoch s + 1 <? w_epoch w then s else enqueue lease s w, [])
   else
   if negb (check maxseq48 (get_win W (w_epoch w) (r_wins s)) (w_seq w)) then (s, [])
-  else if w_epoch w =? 0 then
-    (* d2d55dd: an UNPROTECTED record whose content does not decode is logged and discarded; Rec/Recv.v
-       (the receive path before that repair) answers it like a protected one, with decode_error *)
-    (if is_bad (w_clear w) then (s, []) else gated full s (w_clear w) (dispatch W lease s w (w_clear w)))
+  else if w_epoch w =? 0 then gated full s (w_clear w) (dispatch W lease s w (w_clear w))
   else
   if negb (r_init s) then (enqueue lease s w, [])
   else if negb (len (r_cid s) =? 0) && negb (w_ctype w =? ct_cid) then (s, [])
